@@ -29,6 +29,13 @@ def main():
             cases.append({"op": op, "l": a, "r": b})
             # the same operation with each operand re-expressed in a sibling unit (value kept by construction is not
             # needed: the oracle compares SI values of results with the operation on SI values)
+    # very small amounts written in large units (a dalton in kilograms, an electron-volt in joules): a factor of two apart is a factor of two apart
+    for u, (m1, m2) in (([[None, "kilogram", 1]], (1.66e-27, 3.32e-27)), ([[None, "joule", 1]], (1.6e-19, 4.8e-19)), ([[None, "meter", 1]], (1e-15, 3e-15)),
+                        ([[None, "second", 1]], (1e-13, 2.5e-13)), ([[None, "meter", 2]], (1e-28, 2e-28)), ([["kilo", "gram", 1]], (1.66e-27, 3.32e-27))):
+        fl_ = lambda x: ["float", str(float(x).as_integer_ratio()[0]), str(float(x).as_integer_ratio()[1])]
+        for op in ("eq", "lt", "gt", "le"):
+            cases.append({"op": op, "l": {"t": "qty", "m": fl_(m1), "u": u}, "r": {"t": "qty", "m": fl_(m2), "u": u}})
+            cases.append({"op": op, "l": {"t": "qty", "m": fl_(m2), "u": u}, "r": {"t": "qty", "m": fl_(m1), "u": u}})
     recs = qdriver.run(cases)
     nties = 0
     for case, rec in zip(cases, recs):
